@@ -138,7 +138,13 @@ class TimeMixIn(object):
         :
             new instance of |ASN.1| value
         """
-        text = dt.strftime(cls._yearsDigits == 4 and '%Y%m%d%H%M%S' or '%y%m%d%H%M%S')
+        # strftime() does not zero-pad years below 1000 on every platform
+        if cls._yearsDigits == 4:
+            text = '%.4d' % dt.year
+        else:
+            text = '%.2d' % (dt.year % 100)
+
+        text += dt.strftime('%m%d%H%M%S')
         if cls._hasSubsecond:
             text += '.%d' % (dt.microsecond // 1000)
 
